@@ -132,15 +132,20 @@ CHECKS.update({
     "C11": dict(
         text="Theorems: the last phase-space record of a run is its final grid labelled with the step count; split_run: a "
              "steps, store, restart, b steps = a+b steps in one go for RenormalizeCharge<0 and static RF, for ALL a, b, "
-             "output settings; with renormalisation the full statement is false of the code (split_run_full_false). Oracle: "
-             "leg1+leg2 vs single run on the binary (bit-wise without renormalisation), chosen start records, unusable files.",
+             "output settings; with renormalisation the full statement is false of the code (split_run_full_false). Start-file reader "
+             "(GENERATED from HDF5File::readPhaseSpace, 64-bit wrap explicit): the record loaded is StartDistStep for 0 <= step < "
+             "records, records+step for negative steps, and exists for EVERY step; files without a record, with >= 2 bunches or of "
+             "another rank are refused (TieH5Read), validated in-process against the real reader. Oracle: "
+             "leg1+leg2 vs single run on the binary (bit-wise without renormalisation), chosen start records, ten unusable files.",
         note="HDF5 read-back of stored bit patterns is an assumption (tested). With RenormalizeCharge >= 0 equality holds up to the start-up renormalisation factor (measured).",
         technique="Lean 4 proof (state-machine refinement on the translated main loop) + binary-level oracle",
         ref="DESIGN.md 7/C11"),
     "C12": dict(
         text="Theorems (non-interference): for ALL step counts and ALL observation settings (outstep, h5save, file or not, "
              "tracks, cache contents) the physical state (step, grid, x-projection, RF queue) after k steps is the same; "
-             "the step is a function of the physical state; records common to two cadences are identical. Oracle: bit-wise "
+             "the step is a function of the physical state; records common to two cadences are identical; stored phase spaces common "
+             "to two runs are identical except the t=0 record between SavePhaseSpace=0 and >0 with renormalisation, where the full "
+             "statement is refuted (common_phase_spaces_full_false; known finding initial-record). Oracle: bit-wise "
              "comparison of final phase spaces and common records across variants and repetitions of real runs.",
         note="Determinism of the numerics (FFTW with fixed wisdom) is observed, not proved.",
         technique="Lean 4 proof (frame/non-interference by induction over the translated main loop) + bit-wise binary oracle",
@@ -177,10 +182,10 @@ CHECKS.update({
     "C20": dict(
         text="Theorems on a model of boost::program_options store/notify and the GENERATED option table and parse() skeleton: "
              "precedence - for every key: command-line value, else config-file value, else value of its legacy alias, else "
-             "default; notify leaves each variable with the tokens of its (unique) option; unknown key / malformed value / "
-             "missing config file stop before anything is simulated; table well-formedness by decide. Correspondence: "
+             "default; notify leaves each variable with the tokens of its (unique) option; unknown key / malformed value / token that "
+             "belongs to no option / missing config file stop before anything is simulated; table well-formedness by decide. Correspondence: "
              "random assignments over all sources against the real parse().",
-        note="boost semantics are modelled (validated by correspondence), lexical_cast not modelled. Model after fix 957f9ea.",
+        note="boost semantics are modelled (validated by correspondence), lexical_cast not modelled. Model after fixes 957f9ea, 76daffd.",
         technique="Lean 4 proof (finite-map semantics of store/notify over the translated option table) + translator + correspondence",
         ref="DESIGN.md 7/C20"),
 })
@@ -216,7 +221,10 @@ CHECKS.update({
              "stated Airy sign hypothesis; collimator is a positive constant; the factory returns nothing iff nothing is "
              "selected and otherwise the sample-wise sum of exactly the selected contributions; sums keep Re >= 0. "
              "Oracle on the real builders: length, finiteness, Re >= 0, zero upper half, scaling laws, phases, the side of the "
-             "source on which the response lives (free space vs wall opposite), parallel-plates asymptotics, factory = sum.",
+             "source on which the response lives (free space vs wall opposite), parallel-plates asymptotics, factory = sum. "
+             "Parallel plates: the scalar arithmetic of the builder is GENERATED (G9j) and evaluated by the model driver in binary64 "
+             "with Airy values supplied by the check: bitwise agreement with the real table; mode bound maxp = 2 n f0 g/c, scale "
+             "and per-mode passivity proved on the generated expressions (TiePP).",
         note="Airy-function asymptotics (parallel plates -> free space, suppression below cutoff) and one-sidedness of the "
              "truncated tables are measured by the oracle, not proved. n<=1 is excluded (C17).",
         technique="Lean 4 proof (algebra/order over a field with library functions as parameters) + correspondence of all builders and the factory + analytic oracle",
